@@ -169,6 +169,151 @@ fn cmd_optimize_cases(args: &[String]) {
     }
 }
 
+/// run3 <jobs.ndjson> <out.ndjson>: each job {id, name, prog, owners, outs, mode, inputs:[values], seeds:[..], junk:[..]}.
+/// Compiles with the real compile_context, evaluates the source graph in plaintext (expected result) and runs the
+/// compiled graph as three separate parties (cc_conform::party3) for every (seed, junk kind); one record per run.
+fn cmd_run3(args: &[String]) {
+    use cc_conform::party3::{run_three_parties, Junk};
+    use ciphercore_base::evaluators::random_evaluate;
+    let jobs = read_jobs(&args[0]);
+    let mut out = std::io::BufWriter::new(std::fs::File::create(&args[1]).unwrap());
+    cc_conform::quiet_panics();
+    for job in jobs {
+        let res = cc_conform::catch(std::panic::AssertUnwindSafe(|| -> ciphercore_base::errors::Result<Vec<Json>> {
+            let c = prog::build_context(&job["prog"])?;
+            let src = c.get_main_graph()?;
+            let in_nodes = compile::inputs_of(&src);
+            let mut inputs = vec![];
+            for (n, v) in in_nodes.iter().zip(job["inputs"].as_array().unwrap().iter()) {
+                inputs.push(export::json_value(v, &n.get_type()?)?);
+            }
+            let rt = src.get_output_node()?.get_type()?;
+            // plaintext result of the source graph (custom operations instantiated, calls evaluated directly)
+            let inst = ciphercore_base::custom_ops::run_instantiation_pass(c.clone())?;
+            let expected = random_evaluate(inst.get_context().get_main_graph()?, inputs.clone())?;
+            let owners: Vec<_> = job["owners"].as_array().unwrap().iter().map(compile::io_status).collect();
+            let outs: Vec<_> = job["outs"].as_array().unwrap().iter().map(compile::io_status).collect();
+            let r = compile::compile(&c, &owners, &outs, job["mode"].as_str().unwrap())?;
+            let g = r.mapped.get_context().get_main_graph()?;
+            let mut recs = vec![];
+            for seed in job["seeds"].as_array().unwrap() {
+                // the same compiled graph on ONE store (the evaluation model of the repository's tests): C01 at full width.
+                // Shared inputs are given as a sharing produced by the library itself.
+                let single: Json = {
+                    use ciphercore_base::evaluators::simple_evaluator::SimpleEvaluator;
+                    use ciphercore_base::evaluators::Evaluator;
+                    use ciphercore_base::mpc::mpc_compiler::IOStatus;
+                    let sd = seed.as_u64().unwrap();
+                    let mut s16 = [0u8; 16];
+                    s16[..8].copy_from_slice(&sd.to_le_bytes());
+                    let mut prng = ciphercore_base::random::PRNG::new(Some(s16))?;
+                    let mut cin = vec![];
+                    for (k, v) in inputs.iter().enumerate() {
+                        if owners[k] == IOStatus::Shared {
+                            let t = in_nodes[k].get_type()?;
+                            cin.push(ciphercore_base::typed_value::TypedValue::new(t, v.clone())?.secret_share(&mut prng)?.value);
+                        } else {
+                            cin.push(v.clone());
+                        }
+                    }
+                    let gg = g.clone();
+                    let ot = gg.get_output_node()?.get_type()?;
+                    match cc_conform::catch(std::panic::AssertUnwindSafe(move || SimpleEvaluator::new(Some(s16)).and_then(|mut e| e.evaluate_graph(gg, cin)))) {
+                        Ok(Ok(v)) => {
+                            // bring a revealed named tuple into the source column order (see below)
+                            let v2 = if let (ciphercore_base::data_types::Type::NamedTuple(a), ciphercore_base::data_types::Type::NamedTuple(b), false) = (&ot, &rt, outs.is_empty()) {
+                                let names_a: Vec<String> = a.iter().map(|x| x.0.clone()).collect();
+                                match v.to_vector() {
+                                    Ok(cols) if a.len() == b.len() && b.iter().all(|x| names_a.contains(&x.0)) => ciphercore_base::data_values::Value::from_vector(
+                                        b.iter().map(|x| cols[names_a.iter().position(|n| *n == x.0).unwrap()].clone()).collect()),
+                                    _ => v,
+                                }
+                            } else {
+                                v
+                            };
+                            let tt = if outs.is_empty() { ot.clone() } else { rt.clone() };
+                            export::value_json(&v2, &tt, export::Num::Limbs).unwrap_or(json!("error"))
+                        }
+                        _ => json!("error"),
+                    }
+                };
+                for jk in job["junk"].as_array().unwrap() {
+                    let junk = match jk.as_str().unwrap() {
+                        "zeros" => Junk::Zeros,
+                        "ones" => Junk::Ones,
+                        _ => Junk::Random,
+                    };
+                    let run = run_three_parties(&g, &owners, &inputs, junk, seed.as_u64().unwrap())?;
+                    let shared = outs.is_empty();
+                    // column order of named tuples is judged elsewhere (C19): bring a revealed named-tuple result into
+                    // the order of the source result type, by name, before comparing content
+                    let mut run = run;
+                    if !shared {
+                        if let (ciphercore_base::data_types::Type::NamedTuple(a), ciphercore_base::data_types::Type::NamedTuple(b)) = (&run.out_type, &rt) {
+                            let names_a: Vec<String> = a.iter().map(|x| x.0.clone()).collect();
+                            let mut sa = names_a.clone();
+                            let mut sb: Vec<String> = b.iter().map(|x| x.0.clone()).collect();
+                            sa.sort();
+                            sb.sort();
+                            if sa == sb && run.out_type != rt {
+                                for p in 0..3 {
+                                    if let Some(v) = &run.out[p] {
+                                        if let Ok(cols) = v.to_vector() {
+                                            let re: Vec<_> = b.iter().map(|x| cols[names_a.iter().position(|n| *n == x.0).unwrap()].clone()).collect();
+                                            run.out[p] = Some(ciphercore_base::data_values::Value::from_vector(re));
+                                        }
+                                    }
+                                }
+                                run.out_type = rt.clone();
+                            }
+                        }
+                    }
+                    // a shared output is the 3-tuple of shares; a revealed one has the plaintext result type
+                    let mut ok = vec![];
+                    let mut vals = vec![];
+                    for p in 0..3 {
+                        match &run.out[p] {
+                            Some(v) => match export::value_json(v, &run.out_type, export::Num::Limbs) {
+                                Ok(j) => {
+                                    ok.push(true);
+                                    vals.push(j)
+                                }
+                                Err(_) => {
+                                    ok.push(false);
+                                    vals.push(json!("poison"))
+                                }
+                            },
+                            None => {
+                                ok.push(false);
+                                vals.push(json!("poison"))
+                            }
+                        }
+                    }
+                    recs.push(json!({
+                        "id": job["id"], "name": job["name"], "owners": job["owners"].as_array().unwrap().iter().map(owner_str).collect::<Vec<_>>(),
+                        "outs": job["outs"], "mode": job["mode"], "seed": seed, "junk": jk,
+                        "ty": export::type_json(&rt),
+                        "out_ty_matches": shared || run.out_type == rt,
+                        "expected": export::value_json(&expected, &rt, export::Num::Limbs)?,
+                        "ok": ok, "out": vals, "nodes": g.get_nodes().len(), "sends": run.sends, "poisoned": run.poisoned,
+                        "single_ok": single != json!("error"), "single": single.clone(),
+                    }));
+                }
+            }
+            Ok(recs)
+        }));
+        match res {
+            Ok(Ok(recs)) => {
+                for r in recs {
+                    writeln!(out, "{}", r).unwrap();
+                }
+            }
+            Ok(Err(e)) => eprintln!("job {}: error: {}", job["id"], e),
+            Err(p) => eprintln!("job {}: PANIC {}", job["id"], p),
+        }
+    }
+}
+
 fn main() {
     let args: Vec<String> = std::env::args().skip(1).collect();
     if args.is_empty() {
@@ -179,6 +324,7 @@ fn main() {
         "compile-dump" => cmd_compile_dump(&args[1..]),
         "compile-progs" => cmd_compile_progs(&args[1..]),
         "optimize-cases" => cmd_optimize_cases(&args[1..]),
+        "run3" => cmd_run3(&args[1..]),
         c => {
             eprintln!("unknown command {c}");
             std::process::exit(2);
